@@ -356,22 +356,17 @@ impl<'template, 'env> State<'template, 'env> {
     #[cfg_attr(docsrs, doc(cfg(feature = "multi_template")))]
     pub fn render_block(&mut self, block: &str) -> Result<String, Error> {
         let mut buf = String::new();
-        #[cfg(not(feature = "verif_hooks"))]
-        {
-            crate::vm::call_block(block, self, &mut Output::new(&mut buf)).map(|_| buf)
-        }
         #[cfg(feature = "verif_hooks")]
-        {
-            let verif_before = self.verif_snapshot();
-            let rv = crate::vm::call_block(block, self, &mut Output::new(&mut buf)).map(|_| buf);
-            crate::verif_hooks::balance::nested(
-                "render_block",
-                rv.is_ok(),
-                verif_before,
-                self.verif_snapshot(),
-            );
-            rv
-        }
+        let verif_before = self.verif_snapshot();
+        let rv = crate::vm::call_block(block, self, &mut Output::new(&mut buf)).map(|_| buf);
+        #[cfg(feature = "verif_hooks")]
+        crate::verif_hooks::balance::nested(
+            "render_block",
+            rv.is_ok(),
+            verif_before,
+            self.verif_snapshot(),
+        );
+        rv
     }
 
     /// Renders a block with the given name into an [`io::Write`](std::io::Write).
